@@ -285,6 +285,66 @@ func concurrentSaturated(idx int64, r *rand.Rand) {
 	rt.Distinct(fmt.Sprintf("conc|%d|%d|%d", l0, inc, n))
 }
 
+// concurrentHealthy: M identical healthy saturated samples (RTT = the baseline, huge in-flight, no drop) reach one
+// limit from several goroutines while another goroutine polls EstimatedLimit().  Every delivered sample counts: the
+// result equals what a twin reaches when it is handed the same M samples one after the other.
+func concurrentHealthy(idx int64, r *rand.Rand) {
+	kind := []string{"vegas", "gradient", "gradient2"}[r.IntN(3)]
+	spec := limgen.Gen(r, kind, limgen.Opts{Bounded: true})
+	switch kind {
+	case "vegas":
+		spec.ProbeMult = 100 // no probe within the few samples of this case (a probe needs at least 50 x estimate samples)
+	case "gradient":
+		spec.ProbeInt = limit.ProbeDisabled
+	}
+	a, b := spec.New(nil, "c07"), spec.New(nil, "c07")
+	const rtt = 1 << 20
+	for _, l := range []core.Limit{a, b} {
+		l.OnSample(0, rtt, 1<<20, false) // establishes the baseline
+	}
+	n := 2 + r.IntN(6)
+	per := 1 + r.IntN(5)
+	for i := 0; i < n*per; i++ {
+		a.OnSample(0, rtt, 1<<20, false)
+	}
+	stop := make(chan struct{})
+	var pw sync.WaitGroup
+	pw.Add(1)
+	go func() {
+		defer pw.Done()
+		for {
+			select {
+			case <-stop:
+				return
+			default:
+				_ = b.EstimatedLimit()
+			}
+		}
+	}()
+	bar := lin.NewBarrier(n)
+	var wg sync.WaitGroup
+	for g := 0; g < n; g++ {
+		wg.Add(1)
+		go func() {
+			defer wg.Done()
+			bar.Wait()
+			for i := 0; i < per; i++ {
+				b.OnSample(0, rtt, 1<<20, false)
+			}
+		}()
+	}
+	wg.Wait()
+	close(stop)
+	pw.Wait()
+	rt.Count("concurrent_healthy_rounds", 1)
+	if ea, eb := a.EstimatedLimit(), b.EstimatedLimit(); ea != eb {
+		rt.Violation("C07/"+kind+"/healthy-samples-delivered-concurrently-did-not-all-count", idx, rt.J{"spec": spec, "goroutines": n, "samples_each": per,
+			"estimate_after_sequential_delivery": ea, "estimate_after_concurrent_delivery": eb})
+		return
+	}
+	rt.Distinct(fmt.Sprintf("chealthy|%+v|%d|%d", spec, n, per))
+}
+
 func TestCheck(t *testing.T) {
 	if limgen.LargeTables() {
 		rt.Count("shards_started_with_enlarged_lookup_tables", 1)
@@ -293,6 +353,8 @@ func TestCheck(t *testing.T) {
 		r := rt.CaseRand(7, idx)
 		rt.Case()
 		switch {
+		case idx%20 == 19:
+			concurrentHealthy(idx, r)
 		case idx%10 == 9:
 			concurrentSaturated(idx, r)
 		case idx%2 == 0:
